@@ -23,5 +23,5 @@ PROP = {'level': 'exploration',
  'rule': 'see parts',
  'assumptions': ['violation key = <outermost exported function of the faulting package on the stack>/<failure class>/<innermost repository function>'],
  'race_allow': [],
- 'runs': [{'name': 'lib', 'pkg': './indexes', 'run': '^TestVerifC12$', 'timeout': '30m', 'timeout_thorough': '120m'},
-          {'name': 'main', 'pkg': '.', 'run': '^TestVerifC12Main$', 'timeout': '30m', 'timeout_thorough': '120m'}]}
+ 'runs': [{'name': 'lib', 'pkg': './indexes', 'run': '^TestVerifC12$', 'timeout': '30m', 'timeout_thorough': '120m', 'env': {'CGO_ENABLED': '0'}},
+          {'name': 'main', 'pkg': '.', 'run': '^TestVerifC12Main$', 'timeout': '30m', 'timeout_thorough': '120m', 'env': {'CGO_ENABLED': '0'}}]}
